@@ -311,7 +311,8 @@ mutual
 /-- declarations whose emitted schema is a well-formed draft-4 document after the dialect fix.
     Excluded (each a finding or a raise): classes without any required or defaulted field
     (`required: []`), `exclusiveMaximum` without `maximum`, non-positive `multiplesOf`, constrained
-    map keys, empty positional `items`, empty / duplicated enums, raising kinds. -/
+    map keys, empty positional `items`, empty / duplicated enums, raising kinds; and, corresponded
+    only: classes with defaults, an inline StructureReference in the field-wrapper form. -/
 def wfFragF : FieldDecl → Bool
   | .number o => numOptsOk o
   | .integer o => numOptsOk o
@@ -330,9 +331,9 @@ def wfFragF : FieldDecl → Bool
   | .mapAny _ => true
   | .mapOf k v _ => plainKey k && wfFragF v
   | .struct c fields defaults =>
-    (collapses c (fields.map (·.1)) || (!(schemaRequired c defaults).isEmpty
-        && nodupS (schemaRequired c defaults)))
-    && nodupS (fields.map (·.1)) && wfFragP fields
+    (if collapses c (fields.map (·.1)) then !c.inline
+     else !(schemaRequired c defaults).isEmpty && nodupS (schemaRequired c defaults))
+    && defaults.isEmpty && wfFragP fields
   | .anyOf fs => if optShape fs then wfFragOpt fs else !fs.isEmpty && wfFragL fs
   | .oneOf fs => !fs.isEmpty && wfFragL fs
   | .allOf fs => !fs.isEmpty && wfFragL fs
